@@ -53,17 +53,3 @@ Proof.
   apply (files_indep c n 0 false false).
 Qed.
 
-(* every file of a model run: empty, or header of the loop ranks down to the traced rank first *)
-Lemma model_header : forall c n m k t,
-  let st := exec n (init_state (k_keys c) true m) (fst (c16_events c)) in
-  In (k, t) (m_tr st) ->
-  match index_of (key_rank k) (m_lo st) with
-  | None => file_content t = []
-  | Some i => exists rows, file_content t = header (m_lo st) i :: rows
-  end.
-Proof.
-  intros c n m k t st Hin.
-  pose proof (exec_finv true m n (fst (c16_events c)) _ (init_finv (k_keys c) true m)) as F.
-  unfold finv in F. rewrite Forall_forall in F. destruct (F _ Hin) as [Ff _].
-  exact (header_first n (k_keys c) true m (fst (c16_events c)) k t Hin Ff).
-Qed.
